@@ -53,7 +53,24 @@ KERNELS = [('CubicSpline', (1, 2, 3)), ('WendlandQuintic', (2, 3)),
            ('SuperGaussian', (1, 2, 3)), ('WendlandQuinticC2_1D', (1,)),
            ('WendlandQuinticC4_1D', (1,)), ('WendlandQuinticC6_1D', (1,))]
 NNPS = ['LinkedListNNPS', 'SpatialHashNNPS', 'CellIndexingNNPS',
-        'BoxSortNNPS', 'OctreeNNPS']
+        'BoxSortNNPS', 'OctreeNNPS', 'StratifiedHashNNPS:2',
+        'DictBoxSortNNPS', 'ExtendedSpatialHashNNPS', 'ZOrderNNPS',
+        'CompressedOctreeNNPS', 'StratifiedHashNNPS:3',
+        # one array only (recorded C01 findings for several arrays)
+        'ExtendedZOrderNNPS', 'StratifiedSFCNNPS']
+SINGLE_ARRAY_ONLY = ('ExtendedZOrderNNPS', 'StratifiedSFCNNPS')
+
+
+def nnps_menu(ncfg, thorough, two):
+    """The default algorithm for every configuration; for every fifth one
+    (thorough: all) four (all) of the others as well, taking turns."""
+    others = [n for n in NNPS[1:] if not (two and n in SINGLE_ARRAY_ONLY)]
+    if thorough:
+        return NNPS[:1] + others
+    if ncfg % 5:
+        return NNPS[:1]
+    k = (ncfg // 5) % len(others)
+    return NNPS[:1] + [others[(k + j) % len(others)] for j in range(4)]
 
 H0 = 0.5
 # values given to the physical fields (3-value alphabets)
@@ -228,17 +245,20 @@ def _job(args, only=None):
             holder['arrays'] = arrs
             ev.update_particle_arrays(arrs)
             ev2.func_eval.update_particle_arrays(arrs)
-            for nn_name in ((NNPS if (ncfg % 5 == 0 or thorough)
-                             else NNPS[:1]) if only is None else [only[2]]):
+            for nn_name in (nnps_menu(ncfg, thorough, two)
+                            if only is None else [only[2]]):
                 if nn_name != 'LinkedListNNPS':
                     kw = {}
-                    if nn_name == 'OctreeNNPS':
+                    cls_name = nn_name.split(':')[0]
+                    if ':' in nn_name:
+                        kw['num_levels'] = int(nn_name.split(':')[1])
+                    if cls_name in ('OctreeNNPS', 'CompressedOctreeNNPS'):
                         # small leaves and the multi-thread tree builder: a
                         # deep tree even for four particles
                         kw['leaf_max_particles'] = 2
                         set_number_of_threads(2)
                     try:
-                        nn = getattr(N, nn_name)(
+                        nn = getattr(N, cls_name)(
                             dim=dim, particles=arrs,
                             radius_scale=kernel.radius_scale, **kw)
                     finally:
